@@ -37,6 +37,7 @@ Inductive item : Type :=
 | ITopUnknown             (* top = <something else>; assumed to lie at or below the written end *)
 | IStore (k : Z) (stable : bool)   (* stack[top + k] = e   (emitted after the items of e); stable: e is an immediate
                                      built from an integer, or a local registered with sexp_gc_preserve *)
+| IArg (k : Z)            (* the value of stack[top + k] is an argument of the next allocating call *)
 | ICall (f : string)      (* call of a function from which sexp_alloc is reachable, or through a pointer *)
 | IIf (a b : list item)   (* either branch *)
 | ILoop (b : list item)   (* any number of iterations; IBreak inside = break or continue *)
@@ -79,6 +80,11 @@ Definition safe_rel (r : rel) : bool :=
 
 (** acceptance of an allocating call: no lost root and no stale root *)
 Definition safe (s : ast) : bool := safe_rel (arel s) && (0 <=? awp s) && fresh_ok (arel s) (afe s).
+
+(** a stack slot handed by value to an allocating callee must lie below the published top (the callee allocates
+    before it stores the argument) *)
+Definition arg_ok (r : rel) (k : Z) : bool :=
+  match r with Stale => false | Le => k <? 0 | Eq d => k + d <? 0 end.
 
 (** state required at every exit of an opcode = state assumed at every entry *)
 Definition start : ast := mkast Stale 0 0 NInf.
@@ -180,6 +186,7 @@ Fixpoint run_item (it : item) (s : ast) {struct it} : res :=
   | ITopDown => mkres true (Some (mkast (step_down (arel s)) (ahi s) (awp s) (match afe s with NInf => NInf | _ => PInf end))) None
   | ITopUnknown => mkres true (Some (mkast Stale 0 (awp s) NInf)) None
   | IStore k stb => mkres true (Some (step_store s k stb)) None
+  | IArg k => mkres (arg_ok (arel s) k) (Some s) None
   | ICall _ => mkres (safe s) (Some s) None
   | IIf a b =>
     let ra := run_list_with run_item a (Some s) in
@@ -204,8 +211,9 @@ Definition seg_ok (e : string * list item) : bool :=
 
 (** -------------------------------------------------------------------------------------------------
     Concrete semantics.  A configuration is (local top, published top, written end, fresh end).  [OBad] = an
-    allocating call ran with the local top above the published top or with a freshly stored slot at or above
-    it (lost root), or with the published top above the written end (stale root). *)
+    allocating call ran with the local top above the published top, with a freshly stored slot at or above
+    it, or was handed the value of a slot at or above it (lost root), or ran with the published top above the
+    written end (stale root). *)
 Record conc : Type := mkc { ctop : Z; cpub : Z; cw : Z; cf : option Z }.
 
 Definition fresh_store (c : conc) (k : Z) (stable : bool) : option Z :=
@@ -228,6 +236,8 @@ Inductive exec : item -> conc -> out -> Prop :=
 | ETopU t c : t <= cw c -> exec ITopUnknown c (OFall (mkc t (cpub c) (cw c) None))
 | EStore k stb c : exec (IStore k stb) c
                      (OFall (mkc (ctop c) (cpub c) (if ctop c + k =? cw c then cw c + 1 else cw c) (fresh_store c k stb)))
+| EArgOk k c : ctop c + k < cpub c -> exec (IArg k) c (OFall c)
+| EArgLost k c : cpub c <= ctop c + k -> exec (IArg k) c OBad
 | ECallOk f c : ctop c <= cpub c -> cpub c <= cw c -> fresh_below_pub c -> exec (ICall f) c (OFall c)
 | ECallLost f c : cpub c < ctop c -> exec (ICall f) c OBad
 | ECallStale f c : cw c < cpub c -> exec (ICall f) c OBad
@@ -513,6 +523,9 @@ Proof.
   - (* ITopUnknown *) intros t c Ht s [H1 [H2 [H3 H4]]] _; simpl. unfold gamma; simpl.
     split; [exact I|]. split; [lia|]. split; [lia|]. unfold gfe; simpl. exact I.
   - (* IStore *) intros k stb c s Hg _; simpl. apply step_store_sound; exact Hg.
+  - (* IArg ok *) intros k c _ s Hg _; simpl. exact Hg.
+  - (* IArg lost *) intros k c Hle s [H1 _] Hok; simpl in *. unfold arg_ok in Hok.
+    destruct (arel s); simpl in *; try discriminate; apply Z.ltb_lt in Hok; lia.
   - (* ICall ok *) intros f c _ _ _ s Hg _; simpl. exact Hg.
   - (* ICall lost *) intros f c Hlt s Hg Hok; simpl in *. destruct (safe_gamma _ _ Hok Hg) as [Ha [Hb Hc]]. lia.
   - (* ICall stale *) intros f c Hlt s Hg Hok; simpl in *. destruct (safe_gamma _ _ Hok Hg) as [Ha [Hb Hc]]. lia.
@@ -681,6 +694,11 @@ Proof.
   eapply EConsFall; [apply EPub|]. simpl.
   eapply EConsOther; [|exact I]. eapply ECallFresh; simpl; [reflexivity|]. unfold fresh_store; simpl. lia.
 Qed.
+(** own breaking change M2: ADD passes its popped operand stack[top] to sexp_add *)
+Example ex_popped_argument : seg_ok ("SEXP_OP_ADD"%string, [ITop (-1); IPub 0; IArg 0; ICall "sexp_add"; IStore (-1) false; IStop]) = false.
+Proof. reflexivity. Qed.
+Example ex_scanned_argument : seg_ok ("SEXP_OP_CONS"%string, [IPub 0; IArg (-1); IArg (-2); ICall "sexp_cons_op"; IStore (-2) false; ITop (-1); IStop]) = true.
+Proof. reflexivity. Qed.
 (** frame words (immediates and the registered local self) above the published top are fine: CALLCC *)
 Example ex_callcc_frame : seg_ok ("cc"%string, [IStore 0 true; IStore 1 true; IStore 2 true; IStore 3 true; IPub 0; ICall "sexp_make_vector"; ITop 4; IStop]) = true.
 Proof. reflexivity. Qed.
